@@ -432,6 +432,8 @@ func genC02(c *Ctx) {
 			// keep only non-empty ordinary txs (the property quantifies over non-empty ones)
 			if ci < nModel {
 				c.add("condecon", strconv.Itoa(s.max), strconv.Itoa(s.thr), joinHexList(kept))
+			} else {
+				c.goOnly++
 			}
 			wit := map[string]any{"case": s.shape(), "kept": len(kept)}
 			sq, err := square.Construct(kept, s.max, s.thr)
@@ -516,6 +518,8 @@ func genC03(c *Ctx) {
 	for ci, s := range list {
 		if ci < nModel {
 			c.add("build", argsOf(s)...)
+		} else {
+			c.goOnly++
 		}
 		sq, kept, err := keptCase(s)
 		wit := map[string]any{"case": s.shape()}
@@ -712,6 +716,8 @@ func genC06(c *Ctx) {
 			ops = append(ops, "x", "q")
 			c.add("builderops", strconv.Itoa(s.max), strconv.Itoa(s.thr), strings.Join(ops, ","))
 			c.add("build", argsOf(s)...)
+		} else {
+			c.goOnly++
 		}
 		// oracle
 		wit := map[string]any{"case": s.shape()}
@@ -787,6 +793,8 @@ func genC07(c *Ctx) {
 		if ci < nModel {
 			c.add("build", argsOf(s)...)
 			c.add("specbuild", argsOf(s)...)
+		} else {
+			c.goOnly++
 		}
 		wit := map[string]any{"case": s.shape()}
 		sq, kept, err := keptCase(s)
